@@ -156,6 +156,8 @@ func (cp *cssProcessor) Add(item any) {
 		}
 	case KeyValue[CSSClass, bool]:
 		cp.AddClassName(c.Key.ClassName(), c.Value)
+	case KeyValue[ComponentCSSClass, bool]:
+		cp.AddClassName(c.Key.ClassName(), c.Value)
 	case CSSClasses:
 		for _, item := range c {
 			cp.Add(item)
@@ -367,6 +369,12 @@ func renderCSSItemsToBuilder(sb *strings.Builder, v *contextValue, classes ...an
 				continue
 			}
 			renderCSSItemsToBuilder(sb, v, ccc.Key)
+		case []KeyValue[CSSClass, bool]:
+			for _, kv := range ccc {
+				if kv.Value {
+					renderCSSItemsToBuilder(sb, v, kv.Key)
+				}
+			}
 		case CSSClasses:
 			renderCSSItemsToBuilder(sb, v, ccc...)
 		case []CSSClass:
